@@ -1110,10 +1110,18 @@ func parseExactASColonLocal(body string, localBits int) (asn uint16, local uint3
 	}
 	asn64, err1 := strconv.ParseUint(body[:idx], 10, 16)
 	loc64, err2 := strconv.ParseUint(body[idx+1:], 10, localBits)
-	if err1 != nil || err2 != nil {
+	if err1 != nil || err2 != nil || !isCanonicalDecimal(body[:idx]) || !isCanonicalDecimal(body[idx+1:]) {
 		return 0, 0, false
 	}
 	return uint16(asn64), uint32(loc64), true
+}
+
+// isCanonicalDecimal reports whether a string of decimal digits is spelled the
+// way a community is printed, i.e. without leading zeros. A pattern literal
+// such as 0100 never matches the text of a community, so it must not be
+// promoted to a numeric comparison.
+func isCanonicalDecimal(s string) bool {
+	return s == "0" || (len(s) > 0 && s[0] != '0')
 }
 
 func isWildcardASN(lhs string) bool {
@@ -1132,14 +1140,14 @@ func parseLocalAdminSet(rhs string) (*localAdminBitmap, bool) {
 	case strings.HasPrefix(rhs, "(") && strings.HasSuffix(rhs, ")"):
 		for _, tok := range strings.Split(rhs[1:len(rhs)-1], "|") {
 			n, err := strconv.ParseUint(strings.TrimSpace(tok), 10, 16)
-			if err != nil {
+			if err != nil || !isCanonicalDecimal(strings.TrimSpace(tok)) {
 				return nil, false
 			}
 			locals = append(locals, uint16(n))
 		}
 	default:
 		n, err := strconv.ParseUint(rhs, 10, 16)
-		if err != nil {
+		if err != nil || !isCanonicalDecimal(rhs) {
 			return nil, false
 		}
 		locals = []uint16{uint16(n)}
@@ -1209,7 +1217,7 @@ func extractLiteralASN(s string) (uint16, bool) {
 		return 0, false
 	}
 	asn, err := strconv.ParseUint(s[start:start+idx], 10, 16)
-	return uint16(asn), err == nil
+	return uint16(asn), err == nil && isCanonicalDecimal(s[start:start+idx])
 }
 
 func compileCommunityMatcher(re *regexp.Regexp, listIndex int) communityMatcher {
